@@ -4,6 +4,7 @@ import (
 	"fmt"
 	"go/types"
 	"os"
+	"strconv"
 	"path/filepath"
 	"sort"
 	"strings"
@@ -32,6 +33,7 @@ type Engine struct {
 	mu         sync.Mutex
 	repo       string
 	exprIDs    map[*CExpr]int
+	traced     map[string]bool // functions whose calls are recorded in call-trace ghosts
 }
 
 func repoDir() string {
@@ -113,6 +115,35 @@ func Load(patterns []string) (*Engine, error) {
 	}
 	for k, v := range eng.db.Ghosts {
 		eng.ghostTypes[k] = v
+	}
+	eng.traced = map[string]bool{}
+	var scan func(x *CExpr)
+	scan = func(x *CExpr) {
+		if x == nil {
+			return
+		}
+		if x.Op == "call" && (x.Name == "called" || x.Name == "resultof" || x.Name == "argof" || x.Name == "callcount") && len(x.Args) > 0 {
+			eng.traced[flatName(x.Args[0])] = true
+		}
+		for _, a := range x.Args {
+			scan(a)
+		}
+	}
+	for _, fc := range eng.db.Funcs {
+		for _, cl := range fc.Requires {
+			scan(cl.Expr)
+		}
+		for _, cl := range fc.Ensures {
+			scan(cl.Expr)
+		}
+		for _, lc := range fc.Loops {
+			for _, cl := range lc.Invariants {
+				scan(cl.Expr)
+			}
+		}
+	}
+	for _, m := range eng.db.Macros {
+		scan(m.Body)
 	}
 	eng.indexFuncs()
 	return eng, nil
@@ -379,4 +410,42 @@ func (eng *Engine) exprID(x *CExpr) int {
 	id := len(eng.exprIDs) + 1
 	eng.exprIDs[x] = id
 	return id
+}
+
+// flatName renders a dotted name expression (a.b.c) as a string.
+func flatName(x *CExpr) string {
+	switch x.Op {
+	case "ident":
+		return x.Name
+	case "field":
+		return flatName(x.Args[0]) + "." + x.Name
+	case "paren":
+		return flatName(x.Args[0])
+	case "str":
+		s, _ := strconv.Unquote(x.Name)
+		return s
+	}
+	return ""
+}
+
+// mentionsCallTrace: the expression uses called()/resultof()/argof()/callcount() (directly or through a macro).
+func (eng *Engine) mentionsCallTrace(x *CExpr) bool {
+	if x == nil {
+		return false
+	}
+	if x.Op == "call" {
+		switch x.Name {
+		case "called", "resultof", "argof", "callcount":
+			return true
+		}
+		if m, ok := eng.db.Macros[x.Name]; ok && eng.mentionsCallTrace(m.Body) {
+			return true
+		}
+	}
+	for _, a := range x.Args {
+		if eng.mentionsCallTrace(a) {
+			return true
+		}
+	}
+	return false
 }
